@@ -231,6 +231,9 @@ def run(tier, replay=None):
     nctor = c10.representation_obligations(rep, cfgs=('K0', 'K2'))
     rep.floor('constructors analysed', nctor, 5)
     tables.likely(common.program('K1'), rep)
+    # the feature that selects this code must be reachable from the crate a user enables it on (manifest wiring)
+    from .. import features
+    features.check(rep)
     rep.explanation = ('Structural necessary conditions read from the MIR of the serde impls (feature serde): serialize = serialize_str(self.to_string()); deserialize hands a visitor that '
                        'overrides only string visits to deserialize_str/string/any; visit_str = parse::<LanguageIdentifier>(input).map_err(custom) on the unchanged input; FromStr = from_bytes. '
                        'Together with C02/C04/C05 (parser, printer, round trip) this gives the stated behaviour; serde\'s own dispatch (JSON escapes, Value path, default visit_* errors) is trusted, not analysed.')
